@@ -91,6 +91,9 @@ func c13(c *Ctx) {
 	r.Floor("S3", "borrowed/owned byte-slice source sites", ownership.BorrowTaint(c.P, r), 10)
 	// "1..n sections per unit": the unit is complete exactly when its sections are (rules R6, R9, R10 of C02)
 	demuxrules.New(c.P, r).PSICompleteRules()
+	// "the structure delivered by the demuxer": every section that decodes becomes a DemuxerData, whatever its
+	// current_next_indicator, version or section number (D1)
+	demuxrules.New(c.P, r).NoContentFilter()
 	// the lengths the PAT/PMT writers announce (section_length, program_info_length, ES_info_length, descriptor_length)
 	// equal the bytes they emit: rule A2 level by level, including narrow-arithmetic wrap-around (shared with C09)
 	c09Lengths(c)
